@@ -129,7 +129,8 @@ Fixpoint parse_accounts (n : nat) (l : list Z) : list (Z * xstorage) * list Z :=
            let '(st, l) := parse_items (Z.to_nat ni) l in
            let '(r, l) := parse_accounts k l in ((a, st) :: r, l)
   end.
-(* state: balance; ncode; (addr; code)*; naccounts; accounts; conds (length-prefixed); sliced flag; slice (length-prefixed) *)
+(* state: balance; ncode; (addr; code)*; naccounts; accounts; conds (length-prefixed); sliced flag; slice (length-prefixed);
+          block fields basefee; chainid; coinbase; difficulty; gaslimit; number; timestamp *)
 Definition parse_xstate (l : list Z) : xstate * list Z :=
   let '(bal, l) := pop1 l in
   let '(nc, l) := pop1 l in
@@ -139,7 +140,10 @@ Definition parse_xstate (l : list Z) : xstate * list Z :=
   let '(conds, l) := poplist l in
   let '(flag, l) := pop1 l in
   let '(sl, l) := poplist l in
-  (mkX bal code stor conds (if flag =? 0 then None else Some sl), l).
+  let '(blk, l) := popn 7 l in
+  let fld (f : bfield) : Z :=
+    nth (match f with BBasefee => 0 | BChainid => 1 | BCoinbase => 2 | BDifficulty => 3 | BGaslimit => 4 | BNumber => 5 | BTimestamp => 6 end)%nat blk 0 in
+  (mkX bal code stor conds (if flag =? 0 then None else Some sl) fld, l).
 Fixpoint parse_xstates (n : nat) (l : list Z) : list xstate :=
   match n with
   | O => []
@@ -168,7 +172,10 @@ Definition c15_slice (a : list Z) : list Z :=
   let '(n, l) := pop1 a in
   let '(vs, l) := parse_lists (Z.to_nat n) l in
   let '(sv, l) := poplist l in
-  map Z.of_nat (p_slice (p_build vs) sv).
+  match p_slice (p_build vs) vs sv (slice_fuel vs sv) with
+  | Some r => map Z.of_nat r
+  | None => [-1]
+  end.
 
 (* probes: [n; (kind; a; b; c)*]  kind 0: EPath a (result b: 0 sat / 1 unsat / 2 unknown / 3 err) (model c)
                                    kind 1: EDone a
